@@ -8,7 +8,9 @@ import (
 	"go/token"
 	"go/types"
 	"os"
+	"regexp"
 	"sort"
+	"strconv"
 	"strings"
 
 	"golang.org/x/tools/go/packages"
@@ -90,6 +92,15 @@ func Load(dir string, overlay map[string][]byte, tags string) (*Prog, error) {
 				break
 			}
 			pkgs2, err2 := loadPkgs(dir, ov2, tags)
+			for retry := 0; err2 != nil && retry < 3; retry++ {
+				// an import whose only user was a dropped function: blank it and try again
+				ov3, fixed := blankUnusedImports(dir, ov2, err2.Error())
+				if !fixed {
+					break
+				}
+				ov2 = ov3
+				pkgs2, err2 = loadPkgs(dir, ov2, tags)
+			}
 			if err2 != nil {
 				debugDump(ov2)
 				notes = append(notes, "inlining of functions unknown to the pinned tree abandoned in pass "+fmt.Sprint(pass)+": "+err2.Error())
@@ -104,6 +115,45 @@ func Load(dir string, overlay map[string][]byte, tags string) (*Prog, error) {
 		p.Notes = notes
 	}
 	return p, err
+}
+
+var unusedImportRe = regexp.MustCompile(`(/[^\s:;]+\.go):(\d+):(\d+): "[^"]+" imported (as \S+ )?and not used`)
+
+// blankUnusedImports turns the imports named in "imported and not used" errors into blank imports.
+func blankUnusedImports(dir string, ov map[string][]byte, msg string) (map[string][]byte, bool) {
+	ms := unusedImportRe.FindAllStringSubmatch(msg, -1)
+	if len(ms) == 0 {
+		return nil, false
+	}
+	out := map[string][]byte{}
+	for k, v := range ov {
+		out[k] = v
+	}
+	fixed := false
+	for _, m := range ms {
+		file := m[1]
+		src, ok := out[file]
+		if !ok {
+			continue
+		}
+		ln, _ := strconv.Atoi(m[2])
+		col, _ := strconv.Atoi(m[3])
+		lines := strings.SplitAfter(string(src), "\n")
+		if ln < 1 || ln > len(lines) || col < 1 || col > len(lines[ln-1]) {
+			continue
+		}
+		l := lines[ln-1]
+		rest := l[col-1:]
+		q := strings.Index(rest, "\"")
+		if q < 0 {
+			continue
+		}
+		// `name "path"` or `"path"` at col: replace the name (if any) by _
+		lines[ln-1] = l[:col-1] + "_ " + rest[q:]
+		out[file] = []byte(strings.Join(lines, ""))
+		fixed = true
+	}
+	return out, fixed
 }
 
 func loadPkgs(dir string, overlay map[string][]byte, tags string) ([]*packages.Package, error) {
@@ -195,6 +245,13 @@ func build(dir string, pkgs []*packages.Package) (*Prog, error) {
 						}
 					}
 				}
+			}
+		}
+	}
+	if ref := LoadRef(); ref != nil {
+		for tf := range newFuncs(ref, pkgs) {
+			if sf := prog.FuncValue(tf); sf != nil {
+				unknownFuncs[sf] = true
 			}
 		}
 	}
@@ -398,14 +455,41 @@ func (p *Prog) InModule(fn *ssa.Function) bool {
 	return ok
 }
 
+// unknownFuncs: functions of the loaded programs that the reference table of the pinned tree does not have
+// (after normalisation: those that could not be inlined).
+var unknownFuncs = map[*ssa.Function]bool{}
+
 // FuncsIn returns fn and all anonymous functions nested in it.
 func FuncsIn(fn *ssa.Function) []*ssa.Function {
 	var out []*ssa.Function
+	seen := map[*ssa.Function]bool{}
 	var rec func(f *ssa.Function)
 	rec = func(f *ssa.Function) {
+		if seen[f] {
+			return
+		}
+		seen[f] = true
 		out = append(out, f)
 		for _, a := range f.AnonFuncs {
 			rec(a)
+		}
+		// functions the pinned tree does not have and that could not be inlined (recursive ...) belong to
+		// the function that calls them
+		if len(unknownFuncs) > 0 {
+			for _, b := range f.Blocks {
+				for _, in := range b.Instrs {
+					if ci, ok := in.(ssa.CallInstruction); ok {
+						if g := ci.Common().StaticCallee(); g != nil && unknownFuncs[g] && g.Blocks != nil {
+							rec(g)
+						}
+					}
+					if mc, ok := in.(*ssa.MakeClosure); ok {
+						if g, ok := mc.Fn.(*ssa.Function); ok && unknownFuncs[g] {
+							rec(g)
+						}
+					}
+				}
+			}
 		}
 	}
 	if fn != nil {
